@@ -1,2 +1,162 @@
-/-! line-protocol driver for property C19 (stub) -/
-def main (_args : List String) : IO Unit := pure ()
+import MirVerif.Model.HtabArr
+/-!
+Line-protocol driver for property C19, HTAB part (exe `mirdrv_c19`).
+Elements are pairs `(key, val)`; `eq` compares keys, the hash is a function of the key chosen by a
+mode number (same table as harness/c19_htab.c).
+
+`mirdrv_c19 stream`                      reads operations from stdin:
+    new <hashmode> <minsize> | f|i|r|d <key> <val> | c | e | s | x
+`mirdrv_c19 enum <hashmode> <minsize> <nkeys> <len> <plen> <lo> <hi> [v]`
+    enumerates every operation sequence of length <len> whose first <plen> operations are the
+    digits of a prefix number in [lo,hi) and prints one digest per prefix.
+-/
+open MirVerif.Htab
+
+abbrev E := Nat × Nat
+
+def eqE (a b : E) : Bool := a.1 == b.1
+
+def hashMode (m : Nat) (k : Nat) : Nat :=
+  match m with
+  | 0 => 0
+  | 1 => k
+  | 2 => k % 2
+  | 3 => (k <<< 11) % 4294967296
+  | 4 => (k * 2654435761) % 4294967296
+  | 5 => (k <<< 22) % 4294967296
+  | 6 => 4294967295 - (k % 4294967296)
+  | 7 => k / 2
+  | _ => k
+
+def hfE (m : Nat) (a : E) : Nat := hashMode m a.1
+
+def leE (a b : E) : Bool := a.1 < b.1 || (a.1 == b.1 && a.2 <= b.2)
+
+def sortE (l : List E) : List E := l.mergeSort leE
+
+def showE (a : E) : String := s!"{a.1}:{a.2}"
+
+def showL (l : List E) : String :=
+  if l.isEmpty then "-" else ",".intercalate ((sortE l).map showE)
+
+def showOut (o : Out E) (num : Nat) : String :=
+  let r := match o.res with | some e => showE e | none => "-"
+  s!"{if o.found then 1 else 0} {r} n={num} fr={showL o.freed}"
+
+def actOf (s : String) : Option Action :=
+  match s with
+  | "f" => some .find | "i" => some .insert | "r" => some .replace | "d" => some .delete
+  | _ => none
+
+/-- one protocol line; the table is passed and returned by value so that the arrays stay unshared -/
+def stepLine (mode : Nat) (tab : Option (TabA E)) (ws : List String) : Nat × Option (TabA E) × String :=
+  match ws with
+  | ["new", m, sz] => (m.toNat?.getD 1, some (createA (sz.toNat?.getD 2)), "ok")
+  | [a, k, v] =>
+    match actOf a, tab with
+    | some act, some t =>
+      let r := doOpA (hfE mode) eqE t (k.toNat?.getD 0, v.toNat?.getD 0) act
+      let s := showOut r.2 r.1.num
+      (mode, some r.1, s)
+    | _, tab => (mode, tab, "error")
+  | ["c"] =>
+    match tab with
+    | some t => let r := clearA t; let s := showOut ⟨false, none, r.2⟩ r.1.num; (mode, some r.1, s)
+    | none => (mode, none, "error")
+  | ["e"] =>
+    match tab with
+    | some t => let s := s!"all={showL (contentsA t)}"; (mode, some t, s)
+    | none => (mode, none, "error")
+  | ["s"] =>
+    match tab with
+    | some t => let s := s!"coll={t.coll} size={t.entries.size} bound={t.els.size}"; (mode, some t, s)
+    | none => (mode, none, "error")
+  | ["x"] =>
+    match tab with
+    | some t => (mode, none, s!"fr={showL (clearA t).2}")
+    | none => (mode, none, "error")
+  | _ => (mode, tab, "error")
+
+partial def loop (h : IO.FS.Stream) (out : IO.FS.Stream) (mode : Nat) (tab : Option (TabA E)) :
+    IO Unit := do
+  let line ← h.getLine
+  if line.isEmpty then return ()
+  let ws := (line.trimAscii.toString.splitOn " ").filter (· ≠ "")
+  if ws.isEmpty then loop h out mode tab
+  else
+    let (mode', tab', o) := stepLine mode tab ws
+    out.putStrLn o
+    loop h out mode' tab'
+
+/-! ### exhaustive enumeration with digests -/
+
+@[inline] def mix (h v : UInt64) : UInt64 := (h ^^^ v) * 0x100000001B3 + 0x9E37
+
+def encE (a : E) : UInt64 := (a.1 * 65536 + a.2 + 1).toUInt64
+
+def mixL (h : UInt64) (l : List E) : UInt64 :=
+  mix ((sortE l).foldl (fun h a => mix h (encE a)) h) 0xFFFFFFFF
+
+def mixObs (h : UInt64) (o : Obs E) : UInt64 :=
+  let h := mix h (if o.out.found then 1 else 0)
+  let h := mix h (match o.out.res with | some e => encE e | none => 0)
+  let h := mix h o.num.toUInt64
+  let h := mixL h o.out.freed
+  mixL h o.all
+
+def opOf (nkeys code pos : Nat) : Op E :=
+  if code < 4 * nkeys then
+    let k := code % nkeys
+    let a := match code / nkeys with
+      | 0 => Action.find | 1 => Action.insert | 2 => Action.replace | _ => Action.delete
+    .act a (k, pos + 1)
+  else .clear
+
+/-- digits (most significant first) of `n` in base `b`, `len` digits -/
+def digits (b len n : Nat) : List Nat :=
+  (List.range len).map (fun i => (n / b ^ (len - 1 - i)) % b)
+
+partial def dfs (mode nkeys len : Nat) (verbose : Bool) (out : IO.FS.Stream)
+    (t : TabA E) (h : UInt64) (pos seqno : Nat) (acc : UInt64) : IO UInt64 := do
+  if pos == len then
+    let lh := mixL h (contentsA t)
+    if verbose then out.putStrLn s!"leaf {seqno} {lh}"
+    return acc + lh
+  else
+    let alpha := 4 * nkeys + 1
+    let mut acc := acc
+    for code in [0:alpha] do
+      let r := stepA (hfE mode) eqE t (opOf nkeys code pos)
+      acc ← dfs mode nkeys len verbose out r.1 (mixObs h r.2) (pos + 1) (seqno * alpha + code) acc
+    return acc
+
+def enumMain (args : List Nat) (verbose : Bool) : IO Unit := do
+  match args with
+  | [mode, minsize, nkeys, len, plen, lo, hi] =>
+    let out ← IO.getStdout
+    let alpha := 4 * nkeys + 1
+    for pfx in [lo:hi] do
+      let ds := digits alpha plen pfx
+      let mut t : TabA E := createA minsize
+      let mut h : UInt64 := 0xcbf29ce484222325
+      let mut pos := 0
+      for code in ds do
+        let r := stepA (hfE mode) eqE t (opOf nkeys code pos)
+        t := r.1
+        h := mixObs h r.2
+        pos := pos + 1
+      let d ← dfs mode nkeys len verbose out t h plen pfx 0
+      out.putStrLn s!"blk {pfx} {d}"
+    out.flush
+  | _ => IO.eprintln "usage: enum mode minsize nkeys len plen lo hi [v]"
+
+def main (args : List String) : IO Unit := do
+  match args with
+  | "enum" :: rest =>
+    let verbose := rest.getLast? == some "v"
+    let nums := (if verbose then rest.dropLast else rest).map (fun s => s.toNat?.getD 0)
+    enumMain nums verbose
+  | _ =>
+    let out ← IO.getStdout
+    loop (← IO.getStdin) out 1 none
+    out.flush
